@@ -226,11 +226,22 @@ def run_e2e(case: dict, worker: str) -> dict:
                 break
         return {"summary": c.summary(), "sids": sids, "reset": reset, "stalled_view": stalled_view}
 
-    res = R.RUNNERS[worker]({"keep_alive_timeout": 30}, "h2", client, scripts, tail=5)
+    res = _runner(worker)({"keep_alive_timeout": 30}, "h2", client, scripts, tail=5)
     return res
 
 
+_RUNNERS: Dict[str, Any] = {}
+
+
+def _runner(worker: str):
+    """the in-memory runners with a shorter kill timeout (a session takes < 2 s; a spinning server never reports)"""
+    if not _RUNNERS:
+        _RUNNERS.update({"asyncio": R._isolated(R.run_asyncio, timeout=20.0), "trio": R._isolated(R.run_trio, timeout=20.0)})
+    return _RUNNERS[worker]
+
+
 def check_e2e(ctx: Ctx, cases: List[dict]) -> None:
+    stuck = 0
     for case in cases:
         for worker in ("asyncio", "trio"):
             res = run_e2e(case, worker)
@@ -241,6 +252,9 @@ def check_e2e(ctx: Ctx, cases: List[dict]) -> None:
             cc = {**case, "worker": worker}
             if res.get("stuck_session"):
                 ctx.violation("spinning", cc, "the session never reported (event loop stuck)", {**sig, "error": "stuck"})
+                stuck += 1
+                if stuck >= 3:
+                    return              # the server hangs: every further session would only wait for the kill timeout
                 continue
             if res["error"] or res["loop_errors"]:
                 ctx.violation("send_task_died", cc, {"error": res["error"], "loop": res["loop_errors"]}, {**sig, "error": str(res["error"])})
